@@ -485,6 +485,11 @@ def run_job(job, rec):
                             ok_loc = True
                     rec.check(ok_loc, "mode-not-covariant",
                               lambda: f"{name}: mode of a*s+b is {E2.mode!r}, expected {al * E.mode + be!r}", cctx)
+                if loose and tied:
+                    # (tied samples: only the quality of the fit is required to follow the data, see above - two equally good fits of quantised data
+                    #  have different shapes, hence different intervals and moments)
+                    rec.count("unimodal_covariance:tied_sample_interval_and_moments_not_compared")
+                    continue
                 track(name + ":cov_interval", max(abs(i2[0] - (al * i1[0] + be)), abs(i2[1] - (al * i1[1] + be))) / (sd * al))
                 rec.check(abs(i2[0] - (al * i1[0] + be)) <= tol_loc * 3 and abs(i2[1] - (al * i1[1] + be)) <= tol_loc * 3, "interval-not-covariant",
                           lambda: f"{name}: interval of a*s+b is {i2}, expected {(al * i1[0] + be, al * i1[1] + be)}", cctx)
